@@ -4,6 +4,7 @@ import (
 	"flag"
 	"fmt"
 	"os"
+	"runtime/debug"
 	"sort"
 	"strconv"
 	"strings"
@@ -118,7 +119,14 @@ func main() {
 		defer func() {
 			if r := recover(); r != nil {
 				// a panic of the checker is a failure of the check, never a pass
-				c.fail("CHECKER-PANIC", fmt.Sprint(r), 0, "the checker panicked; treat as undecided")
+				st := string(debug.Stack())
+				if i := strings.Index(st, "panic("); i >= 0 {
+					st = st[i:]
+				}
+				if len(st) > 1500 {
+					st = st[:1500]
+				}
+				c.fail("CHECKER-PANIC", fmt.Sprint(r), 0, "the checker panicked; treat as undecided: "+strings.ReplaceAll(st, "\n", " | "))
 			}
 		}()
 		pr.run(c)
